@@ -108,7 +108,8 @@ theorem hop_step (fuel : Nat) (st : St) (pl : Pl) (src dst : Ip) (n i : Nat) (in
   have hstep1 : ifaceRecv (fuel + 5) st n i f = routerRecv (fuel + 3 + 1) (st.emit (.rx n i f.id f.ttl)) n i f.dec := by
     simp only [ifaceRecv, hn', hi', h1, if_false, hk, hra, if_true]
   rw [hstep1]
-  rw [C08_router_transit (fuel + 3) (st.emit (.rx n i f.id f.ttl)) n i f.dec nd ifc hn' hi' hon hown]
+  rw [C08_router_transit (fuel + 3) (st.emit (.rx n i f.id f.ttl)) n i f.dec nd ifc hn' hi' hon hown
+    (fun _ _ => ⟨by show f.dstMac ≠ bcastMac; rw [hmac]; exact hb, by omega⟩)]
   rw [hlearn]
   subst hR
   have hsend : ∀ X : St, X.nodes = st.nodes → ∀ g : Frame,
@@ -641,6 +642,11 @@ example : (requestService (0 + 11 + 11 + 8) lvSt 0 lvB).2 = true :=
     (by decide) (by decide)
 
 /-- "every device on the path permits" is a real precondition: without the router's permit rule `transitOk` fails … -/
+/-- a frame ENTERING THE FIREWALL ON ITS DMZ PORT (arrival port 2) is a transit frame, too, when the destination's cache entry
+names an outbound port whose list permits (`_process_dmz_outbound_frame`): `Hop` / `journey` / both liveness theorems cover
+paths through the DMZ port; remove the external-outbound permit and it is not. -/
+example : transitOk lvFw 2 (.echoReq 0) lvB = true := by decide
+example : transitOk { lvFw with fw := some (everyList.filter (· != (1, 1))) } 2 (.echoReq 0) lvB = false := by decide
 example : transitOk { lvR with flag := false } 0 .dataReq lvB = false := by decide
 /-- … and so it does when the firewall's external-outbound list does not permit ICMP. -/
 example : transitOk { lvFw with fw := some (everyList.filter (· != (1, 1))) } 1 (.echoReq 0) lvB = false := by decide
